@@ -6,6 +6,7 @@ CONSTANTS
   RootOf <- MCRootOf2
   Names <- MCNames2
   PutNodes <- MCPutNodes2
+  RenameTo <- MCRenameTo
   MaxMods = 1
   MaxFaults = 1
 INVARIANTS
